@@ -36,7 +36,7 @@ int ConjugateMatrix::compare(const Basic &o) const
 {
     SYMENGINE_ASSERT(is_a<ConjugateMatrix>(o));
 
-    return arg_->compare(*down_cast<const ConjugateMatrix &>(o).arg_);
+    return arg_->__cmp__(*down_cast<const ConjugateMatrix &>(o).arg_);
 }
 
 vec_basic ConjugateMatrix::get_args() const
